@@ -408,6 +408,11 @@ def run(ctx: Ctx) -> None:
     r3(ctx, rl)
     r4(ctx, rl)
     r5(ctx, rl)
+    # the back-off after authentication / encryption errors is chosen by the class of the error that reaches the
+    # manager: nothing on the way replaces a classified error by a plainer one (rule shared with C09.R2)
+    from .c09 import classified_errors_not_degraded
+
+    classified_errors_not_degraded(ctx, "C18.R3")
 
 
 # =========================================================================== R1
